@@ -651,10 +651,17 @@ fn run_program(
                     }
                 };
                 let ext = if c.ext { ext } else { "X none".to_string() };
+                // hand-assembled bytecode is marked (`+syn`): it violates the code discipline of the invariant
+                // `GoodI` on purpose, and the side-condition stream evaluates only the clauses of `Good` on it
+                let kind = format!(
+                    "{}{}",
+                    if c.kind.is_empty() { "-" } else { &c.kind },
+                    if prog.patch.is_some() { "+syn" } else { "" }
+                );
                 let info = format!(
                     "i:{}:{}:{}:{}:{}",
                     c.op,
-                    if c.kind.is_empty() { "-" } else { &c.kind },
+                    kind,
                     if c.ext { "ext" } else if c.alias { "alias" } else { "core" },
                     if scrambled { "scr" } else { "lin" },
                     inl
